@@ -77,7 +77,18 @@ def run(prog, ctx):
         if not adjacent:
             ctx.ok("C14.D1", key, car.loc(), "no two evaluations can be adjacent across a re-entry")
         elif kind == "reset":
-            ctx.ok("C14.D1", key, car.loc(), "evaluate may follow evaluate across a re-entry; harmless: %s" % why)
+            ctx.ok("C14.D1", key, car.loc(), "evaluate may follow evaluate across a re-entry; the combined result is unaffected: %s" % why)
+            # ... but every accumulator the evaluation augments must be re-assigned at the start of the evaluation, including the
+            # per-interval error accumulators that drive the stopping rule and the selection
+            aug, reset = _evaluation_accumulators(prog, st)
+            for acc in sorted(aug):
+                key2 = "%s::EE-adjacent-accumulator:%s:%s" % (CAR, st.name, acc)
+                ctx.check(acc in reset, "C14.D1", key2, car.loc(E[0].ast),
+                          "`%s`, augmented by an evaluation, is re-assigned when the evaluation starts" % acc,
+                          "an evaluation of %s accumulates into `%s`, which is not re-assigned at the start of an evaluation (only by the "
+                          "refinement step): after a stop, the evaluation at re-entry adds to it a second time -- for the error volumes the "
+                          "error estimate doubles and a run that had stopped by tolerance refines further than the uninterrupted run"
+                          % (st.name, acc), augmented=sorted(aug), reset_at_evaluation_start=sorted(reset))
         else:
             path = None
             for e in E:
@@ -237,6 +248,78 @@ def run(prog, ctx):
              tmc.term(s.value) == ("call", ("n", "len"), (("a", ("n", "self"), "refinementObjects"),), ()) for s in R.self_stores(cn))
     ctx.check(ok, "C14.D4", R.key_of(cn, "marks-none-new"), cn.loc(), "clear_new_objects sets the marker to the current size",
               "clear_new_objects no longer sets startNewObjects to len(self.refinementObjects)")
+
+
+ACCUMULATOR_ATTRS = ("volume", "value", "integral", "evaluationstotal")
+
+
+def _field_types(prog, strat, attr):
+    """classes constructed into self.<attr> by the strategy's own methods (field-type inference)"""
+    out = []
+    for ci in strat.mro:
+        for fi in ci.methods.values():
+            for s in R.self_stores(fi, attr):
+                if s.kind == "plain" and isinstance(s.value, ast.Call):
+                    k = prog.resolve_class_expr(fi.module.name, s.value.func, fi.cls)
+                    if k is not None and k not in out:
+                        out.append(k)
+    return out
+
+
+def _closure(prog, roots, typed=None):
+    """functions reachable from the root functions by simple-name call resolution (bound methods handed to time_func included);
+    calls on `self.<field>` with a known field type are resolved in that class only"""
+    typed = typed or {}
+    seen = {}
+    work = list(roots)
+    while work:
+        fi = work.pop()
+        if fi.qual in seen:
+            continue
+        seen[fi.qual] = fi
+        names = set()
+        for c in walk_local(fi.node):
+            if isinstance(c, ast.Call):
+                if isinstance(c.func, ast.Attribute):
+                    ch = R.attr_chain(c.func.value)
+                    if ch and len(ch) == 2 and ch[0] == fi.self_name and ch[1] in typed and typed[ch[1]]:
+                        for k in typed[ch[1]]:
+                            t = prog.lookup_method(k, c.func.attr)
+                            if t is not None and t.qual not in seen:
+                                work.append(t)
+                        continue
+                    names.add(c.func.attr)
+                elif isinstance(c.func, ast.Name):
+                    names.add(c.func.id)
+                for a in c.args:
+                    if isinstance(a, ast.Attribute):
+                        names.add(a.attr)
+        for f2 in prog.functions.values():
+            if f2.name in names and f2.qual not in seen and f2.name not in ("__init__", "refine", "refinement_postprocessing", "reinit_new_objects",
+                                                                                 "performSpatiallyAdaptiv", "continue_adaptive_refinement", "plot"):
+                work.append(f2)
+    return list(seen.values())
+
+
+def _evaluation_accumulators(prog, strat):
+    """(attributes augmented while evaluating, attributes plainly re-assigned when an evaluation starts) for a strategy"""
+    ea = prog.lookup_method(strat, "evaluate_operation_area")
+    fin = prog.lookup_method(strat, "finalize_evaluation_operation")
+    ini = prog.lookup_method(strat, "init_evaluation_operation")
+    aug = set()
+    typed = {"refinement": _field_types(prog, strat, "refinement")}
+    for fi in _closure(prog, [ea, fin], typed):
+        for s in R.attribute_stores(fi.node):
+            if s.attr in ACCUMULATOR_ATTRS and s.kind == "aug" and isinstance(s.stmt.op, ast.Add):
+                # an `x.attr += ...` that is preceded, in the same function, by a plain re-assignment under `is None` is still an accumulation
+                aug.add(s.attr)
+    reset = set()
+    for fi in _closure(prog, [ini], typed):
+        for s in R.attribute_stores(fi.node):
+            if s.attr in ACCUMULATOR_ATTRS and s.kind == "plain":
+                reset.add(s.attr)
+    # the meta container assigns (not accumulates) its evaluation count
+    return aug, reset
 
 
 def check_limits_and_pickling(prog, ctx, car):
